@@ -260,13 +260,9 @@ func vNewWorld(budget int, allowBad bool) *vWorld {
 	// current node: one of the titles, symbolic
 	cn := vString("currentNode", 2)
 	vAssume(vOr(cn == "n0", vOr(cn == "n1", cn == "n2")))
-	dr := &DialogueRunner{
-		dialogue:       d,
-		variableStorer: st,
-		commandStorer:  newCommandStorer(),
-		visitedNodes:   map[string]int{},
-		currentNode:    cn,
-	}
+	dr := vBaseRunner(st)
+	dr.dialogue = d
+	dr.currentNode = cn
 	w.dr = dr
 	// visit counts: absent or >= 1 (the invariant jumps maintain); three presence configurations
 	viscfg := vParam("VISCFG", -1)
@@ -281,8 +277,8 @@ func vNewWorld(budget int, allowBad bool) *vWorld {
 		}
 	}
 	// functions: probe (logged, may fail), visited/visited_count exactly as NewDialogueRunner registers them
-	fs := &functionStorer{functionsByID: map[string]YarnSpinnerFunction{}}
-	fs.addFunction("probe", func(args []*variable.Value) (*variable.Value, error) {
+	// (visited / visited_count are the ones the constructor registered)
+	dr.AddFunction("probe", func(args []*variable.Value) (*variable.Value, error) {
 		idx := len(w.probes)
 		w.probes = append(w.probes, vHandlerCall{"probe", args})
 		if vBool("probe." + vItoa(idx) + ".fails") {
@@ -290,15 +286,7 @@ func vNewWorld(budget int, allowBad bool) *vWorld {
 		}
 		return variable.NewNumber(1), nil
 	})
-	fs.convertAndAddFunction("noreturn", func() {})
-	fs.convertAndAddFunction("visited", func(node string) bool {
-		_, ok := dr.visitedNodes[node]
-		return ok
-	})
-	fs.convertAndAddFunction("visited_count", func(node string) int {
-		return dr.visitedNodes[node]
-	})
-	dr.functionStorer = fs
+	dr.ConvertAndAddFunction("noreturn", func() {})
 	// commands
 	dr.AddCommand("cmd", func(args []*variable.Value) <-chan error {
 		w.handlers = append(w.handlers, vHandlerCall{"cmd", args})
